@@ -1,0 +1,32 @@
+//go:build verif
+
+package subscriptionmanager
+
+// Contracts for the SubscriptionManager's clean-up of a client (property C12: the global topic counters are the sums of
+// the clients' subscription counters), read by the verification machinery in /verif. Comment-only file.
+//
+// The closure that cleanupClientWithoutLocking runs for every topic of the leaving client takes the client's WHOLE
+// subscription count of that topic off the global counter of the topic (deleting the topic when nothing is left) and
+// leaves every other topic alone.
+
+/*@
+func SubscriptionManager.cleanupClientWithoutLocking$1
+  instantiate C: string
+  instantiate T: string
+  opt sequential
+  opt assume-no-overflow
+  requires s != nil && *s != nil && (*s).topics != nil && (*s).topics.m != nil && (*s).topics.opts != nil && unlocked((*s).topics.mutex)
+  requires subscribedTopics != nil && *subscribedTopics != nil && (*subscribedTopics).m != nil && (*subscribedTopics).opts != nil && unlocked((*subscribedTopics).mutex) && *subscribedTopics != (*s).topics && (*subscribedTopics).m != (*s).topics.m
+  requires removedTopics != nil && unsubscribedTopics != nil && count >= 0
+  modifies *removedTopics, *unsubscribedTopics, allelems(string), (*s).topics.m, (*s).topics.deletedKeys, (*subscribedTopics).m, (*subscribedTopics).deletedKeys, allmaps((*s).topics.m)
+  loop 1 invariant (*s).topics == old((*s).topics) && (*s).topics.m != nil && *subscribedTopics == old(*subscribedTopics) && (*subscribedTopics).m != nil && (*subscribedTopics).opts != nil && unlocked((*subscribedTopics).mutex) && (*subscribedTopics).m != (*s).topics.m
+  loop 1 invariant forall k Str :: (has((*s).topics.m, k) <==> (k == topic ? old(has((*s).topics.m, topic)) && old((*s).topics.m[topic]) - count > 0 : old(has((*s).topics.m, k))))
+  loop 1 invariant forall k Str :: has((*s).topics.m, k) ==> (*s).topics.m[k] == (k == topic ? old((*s).topics.m[topic]) - count : old((*s).topics.m[k]))
+  ensures r0
+  -- the topic's global counter goes down by the client's whole count ...
+  ensures old(has((*s).topics.m, topic)) && old((*s).topics.m[topic]) - count > 0 ==> has((*s).topics.m, topic) && (*s).topics.m[topic] == old((*s).topics.m[topic]) - count
+  -- ... and the topic disappears when nothing is left
+  ensures !(old(has((*s).topics.m, topic)) && old((*s).topics.m[topic]) - count > 0) ==> !has((*s).topics.m, topic)
+  -- every other topic keeps its counter
+  ensures forall k Str :: k != topic ==> (has((*s).topics.m, k) <==> old(has((*s).topics.m, k))) && (has((*s).topics.m, k) ==> (*s).topics.m[k] == old((*s).topics.m[k]))
+@*/
